@@ -411,6 +411,42 @@ func (w *world) raceTerminateReset(other string) {
 	w.count("scenario:terminate-vs-" + other)
 }
 
+// raceResetDuringCycle: a flush cycle is inside Transition (held) when a reset
+// arrives: the reset must stop the loop first and clear the history after the
+// cycle's own save, not before it.
+func (w *world) raceResetDuringCycle() {
+	w.edit()
+	release, entered := make(chan struct{}), make(chan struct{})
+	jr.mu.Lock()
+	jr.holds["tB"] = release
+	jr.entered["tB"] = entered
+	jr.mu.Unlock()
+	t1, t2 := w.tid(), w.tid()
+	var wg sync.WaitGroup
+	wg.Add(1)
+	go func() { defer wg.Done(); w.do(t1, "flushw") }()
+	select {
+	case <-entered:
+		w.count("scenario:reset-during-transition")
+	case <-time.After(300 * time.Millisecond):
+		w.count("scenario:reset-during-transition:no-cycle")
+	}
+	wg.Add(1)
+	go func() { defer wg.Done(); w.do(t2, "reset") }()
+	time.Sleep(10 * time.Millisecond)
+	close(release)
+	wg.Wait()
+	jr.mu.Lock()
+	jr.holds = map[string]chan struct{}{}
+	jr.entered = map[string]chan struct{}{}
+	jr.mu.Unlock()
+	// nothing else is in flight: in a fully manual session the history stays
+	// cleared until the next flush
+	w.mu.Lock()
+	w.disk[t2] = w.diskState()
+	w.mu.Unlock()
+}
+
 type result struct {
 	line, impl, oracle string
 	counts             map[string]int
@@ -443,6 +479,8 @@ func runCase(seed uint64, base string) result {
 			t := w.tid()
 			w.alone[t] = true
 			w.do(t, "restart")
+		case x == 2 || x == 3:
+			w.raceResetDuringCycle()
 		case x == 1:
 			w.raceTerminateReset([]string{"reset", "pause", "resume", "flushw"}[r.Intn(4)])
 		default:
